@@ -48,6 +48,8 @@ func stmt(kind string, lo, hi int64) string {
 		return "SELECT * FROM m, m2" + where
 	case "count2":
 		return "SELECT count(w) FROM m2" + where
+	case "showtv": // a tag metadata lookup: fans out to every node, over every shard of the database
+		return "SHOW TAG VALUES FROM m WITH KEY = host"
 	case "explain": // cost estimation: fans out like the select it explains
 		return "EXPLAIN SELECT v FROM m" + where
 	}
@@ -197,7 +199,7 @@ func step(c *clusterh.Cluster, shards *[]uint64, st *runState, f []string) (res 
 			return "bad-op"
 		}
 		c.Served()
-		st.q, st.coord, st.lo, st.hi, st.sources = f[2] != "explain", i, i64(f[3]), i64(f[4]), sources(f[2]) // a cost estimate reads nothing
+		st.q, st.coord, st.lo, st.hi, st.sources = f[2] != "explain" && f[2] != "showtv", i, i64(f[3]), i64(f[4]), sources(f[2]) // a cost estimate reads nothing
 		rows, err := c.Query(i, stmt(f[2], i64(f[3]), i64(f[4])))
 		if err != nil {
 			if os.Getenv("VERIF_DEBUG") != "" {
@@ -330,7 +332,7 @@ func genCase(r *fw.Rand) fw.Case {
 		if r.Intn(3) == 0 {
 			lo, hi = base, base+int64(ngroups)*groupLen
 		}
-		kind := []string{"raw", "rawdesc", "count", "sum", "star", "star2", "both", "count2", "explain", "explain"}[r.Intn(10)]
+		kind := []string{"raw", "rawdesc", "count", "sum", "star", "star2", "both", "count2", "explain", "explain", "showtv"}[r.Intn(11)]
 		ops = append(ops, fmt.Sprintf("q %d %s %d %d", c, kind, lo, hi), "served")
 	}
 	for i := 0; i < 2+r.Intn(3); i++ {
@@ -549,6 +551,38 @@ func (r *ref) servable(c int, sh *rshard) (bool, string) {
 }
 
 func (r *ref) query(c int, kind string, lo, hi int64) (string, string) {
+	if kind == "showtv" {
+		// every shard of the database that holds something must be answered for by the
+		// coordinator itself or by an owner that answers; then the values are those of all data
+		hosts := map[int]bool{}
+		for _, sh := range r.shards {
+			if len(sh.pts) == 0 {
+				continue
+			}
+			ok := false
+			for _, o := range sh.owners {
+				if o == c || (r.status[o] != "down" && r.status[o] != "slow") {
+					ok = true
+				}
+			}
+			if !ok {
+				return "error", "a shard holding tag values has no owner that answers"
+			}
+			for k := range sh.pts {
+				hosts[int(k[0])] = true
+			}
+		}
+		var hs []string
+		for _, h := range []int{0, 1} {
+			if hosts[h] {
+				hs = append(hs, fmt.Sprintf("host,h%d", h))
+			}
+		}
+		if len(hs) == 0 {
+			return "ok -", ""
+		}
+		return "ok [m{}(key,value) " + strings.Join(hs, " ") + "]", ""
+	}
 	if kind == "explain" {
 		// the cost estimate: complete (every needed shard that exists counted once) or an
 		// error; when no needed shard holds anything there is nothing to count
@@ -760,6 +794,9 @@ func (Prop) Oracle(c fw.Case, out []string) fw.Verdict {
 				sig := "a query answers although a needed shard could not be read completely"
 				if strings.Contains(why, "drops between two frames") {
 					sig = "a query answers with the part of a remote stream received before the connection dropped"
+				}
+				if f[2] == "showtv" {
+					sig = "a tag values listing is silently incomplete when the only owners of a shard do not answer"
 				}
 				if f[2] == "explain" && o == "ok shards=0" {
 					sig = "a cost estimate is empty although the only shards that know the field have no owner that answers"
